@@ -16,8 +16,10 @@ from . import VERIF
 
 NSHARDS = int(os.environ.get('PKV_SHARDS', '16'))
 KNOWN_FILE = os.path.join(VERIF, 'known_findings.json')
-EVIDENCE_DIR = os.path.join(VERIF, 'evidence')
-REPLAY_DIR = os.path.join(VERIF, 'replays')
+EVIDENCE_DIR = os.environ.get('PKV_EVIDENCE_DIR') or os.path.join(
+    VERIF, 'evidence')
+REPLAY_DIR = os.environ.get('PKV_REPLAY_DIR') or os.path.join(
+    VERIF, 'replays')
 REGRESS_DIR = os.path.join(VERIF, 'regress')
 
 
